@@ -143,7 +143,9 @@ class Gen:
 
     def block(self, i, b):
         if i in self.used:
-            un = "inf" if self.r.random() < 0.6 else "drip%d" % self.r.choice([1, 3, 7, 64, 1000, 16384])
+            # partial writes: small steps only for small metadata (each step is a real pump round in the harness)
+            steps = [1, 3, 7, 64] if self.size <= 400 else [997, 4096, 16384]
+            un = "inf" if self.r.random() < 0.6 else "drip%d" % self.r.choice(steps)
             self.ops.append("w%d:%s" % (i, "0" if b else un))
 
 
@@ -418,8 +420,9 @@ HAND = [
     (300, False, 40, "c0 b0:Hm3 w0:0 b0:M2.0.0 b0:M2.0.0/Hm0 w0:inf b0:Hm5 b0:M2.0.0"),
     # RC4 streams: replies, shared (not owned) PEX buffers, partial writes of an encrypted message
     (40000, False, 40, "e0 b0:Hm3,x1,p7000 b0:M2.0.0 b0:M2.0.1 b0:M2.0.2 t c1 b1:Hx2,p5 t"),
-    (40000, False, 40, "e0 b0:Hm3,x1,p7000 w0:0 b0:M2.0.0/M2.0.1/M2.0.2 w0:drip7 t e1 b1:Hx2,p5,m1 w0:0 w1:0 t b1:M2.0.2 w0:drip1000 w1:drip3 t"),
+    (40000, False, 40, "e0 b0:Hm3,x1,p7000 w0:0 b0:M2.0.0/M2.0.1/M2.0.2 w0:drip997 t e1 b1:Hx2,p5,m1 w0:0 w1:0 t b1:M2.0.2 w0:drip4096 w1:drip509 t"),
     (300, True, 40, "c0 b0:Hm3 w0:0 b0:M2.0.0/M2.0.0 w0:drip1"),
+    (300, False, 40, "e0 b0:Hm3,x1,p7000 t w0:0 e1 b1:Hx2,p5 b0:M2.0.0/M2.0.0 t w0:drip7 t"),
 ]
 
 
@@ -514,6 +517,24 @@ def gen_f(seed, tier):
 
 F_SNAP = re.compile(r"F\[size=(\d+) chunk=(\d+) done=(\d) have=(\d+) file=(\S+)\]")
 Q_RE = re.compile(r"Q(\d)\(id=(\d+),piece=(-?\d+)\)")
+
+
+def single_provider(case):
+    """only peer 0 acts in the case: the class compared with the executable fetcher model"""
+    return all(op == "t" or op[1] == "0" for op in case.split("|", 1)[1].split())
+
+
+def fetch_model_input(case, impl):
+    """the case with the delegator oracle attached: op@<peer>:<block>,... = the requests the
+    implementation wrote during that op (taken from its own output)"""
+    head_, ops = case.split("|", 1)
+    segs = impl.split(" ; ")
+    out = []
+    for k, op in enumerate(ops.split()):
+        seg = segs[k] if k < len(segs) else ""
+        reqs = ",".join("%s:%s" % (m.group(1), m.group(3)) for m in Q_RE.finditer(seg.split("#")[0]))
+        out.append(op + "@" + reqs)
+    return head_ + "| " + " ".join(out)
 
 
 def oracle_f(case, impl):
